@@ -9,7 +9,10 @@ for id in $IDS; do
   prop=$(python3 -c "import json;print(json.load(open('/verif/seeded/$id/meta.json'))['property'])")
   WT=$(mktemp -d /tmp/mine/seedwt.XXXX)
   git -C /repo worktree add -q --detach $WT/wt HEAD || { echo "$id worktree-failed"; continue; }
-  if ! git -C $WT/wt apply /verif/seeded/$id/patch.diff; then echo "$id patch-does-not-apply"; git -C /repo worktree remove --force $WT/wt; rm -rf $WT; continue; fi
+  PATCH=/verif/seeded/$id/patch.diff
+  [ -f /verif/seeded/$id/patch.rebased.diff ] && PATCH=/verif/seeded/$id/patch.rebased.diff
+  if ! git -C $WT/wt apply $PATCH 2>/dev/null && ! git -C $WT/wt apply --3way $PATCH >/dev/null 2>&1; then
+    echo "$id does-not-apply-to-HEAD (see meta.json: base_commit / superseded)"; git -C /repo worktree remove --force $WT/wt; rm -rf $WT; continue; fi
   out=$(cd /verif && VERIF_REPO=$WT/wt VERIF_TMP=/tmp/mine VERIF_EVIDENCE_DIR=/tmp/mine/evidence VERIF_REPLAY_DIR=/tmp/mine/replays VERIF_BUDGET=$B bin/check $prop quick 2>&1); rc=$?
   keys=$(echo "$out" | grep -oE "^REPLAY: violation class=[a-z_]+( key=[^ ]+| form=[a-z_]+)?" | sed 's/REPLAY: violation //' | sort | uniq -c | sort -rn | head -3 | tr '\n' ';')
   echo "$id prop=$prop exit=$rc $keys"
